@@ -32,7 +32,9 @@ func (c *Ctx) sibling(id string) *report.Result {
 	if r, ok := c.memo[id]; ok {
 		return r
 	}
-	c.memo[id] = report.New(id, "other", "") // cycles between siblings resolve to an empty result
+	ph := report.New(id, "other", "") // a cycle between siblings (A re-states a rule of B, B one of A) resolves to a placeholder
+	ph.Extra["sibling-cycle"] = true
+	c.memo[id] = ph
 	r := Registry[id](c)
 	c.memo[id] = r
 	return r
